@@ -8,6 +8,7 @@ use std::path::PathBuf;
 macro_rules! dispatch {
     ($id:expr, $f:ident, $($arg:expr),*) => {
         match $id {
+            "C17" => fw::$f::<props::c17::C17>($($arg),*),
             "C18" => fw::$f::<props::c18::C18>($($arg),*),
             other => {
                 eprintln!("unknown property {other}");
